@@ -320,7 +320,7 @@ class Body:
             if c is None:
                 f = self.expr_of_operand(s['f'], depth, stack) if 'f' in s else ('other', 'f')
                 return ('icall', f, args, pt)
-            return ('call', c['path'], args, pt)
+            return ('call', c['path'], args, pt, c.get('resolved') or c['path'])
         r = s['r']
         rk = r['k']
         if rk == 'use':
@@ -515,6 +515,36 @@ def walk(e):
             yield from walk(a)
 
 
+def value_walk(e):
+    """like walk(), but follows value flow only: for container reads (index projections, get/index calls) the key / index
+    sub-expression is not visited"""
+    yield e
+    k = e[0]
+    if k in ('ref', 'deref', 'cast', 'downcast', 'field', 'discr', 'repeat', 'upvar'):
+        yield from value_walk(e[1])
+    elif k == 'un':
+        yield from value_walk(e[2])
+    elif k in ('index', 'cindex'):
+        yield from value_walk(e[1])
+    elif k == 'phi':
+        for a in e[1]:
+            yield from value_walk(a)
+    elif k == 'call':
+        n = e[1].rsplit('::', 1)[-1]
+        args = e[2][:1] if n in ('get', 'get_mut', 'index', 'index_mut', 'get_unchecked') else e[2]
+        for a in args:
+            yield from value_walk(a)
+    elif k == 'icall':
+        for a in e[2]:
+            yield from value_walk(a)
+    elif k == 'bin':
+        yield from value_walk(e[2])
+        yield from value_walk(e[3])
+    elif k == 'agg':
+        for a in e[5]:
+            yield from value_walk(a)
+
+
 class Facts:
     def __init__(self, path):
         with open(path) as f:
@@ -607,3 +637,79 @@ class Facts:
     def adt_fields(self, adt):
         a = self.adts[adt]
         return [f for v in a['variants'] for f in v['fields']]
+
+
+# ---------------------------------------------------------------------------------- inlining of crate-local helpers
+
+def substitute(e, key, actuals, depth=0):
+    """replace ('arg', i, _, key) nodes of body `key` by actuals[i] (dict) throughout the tree"""
+    if depth > 80 or not isinstance(e, tuple) or not e:
+        return e
+    if e[0] == 'arg' and len(e) > 3 and e[3] == key:
+        return actuals.get(e[1], e)
+    out = []
+    changed = False
+    for x in e:
+        if isinstance(x, tuple) and x and isinstance(x[0], str):
+            y = substitute(x, key, actuals, depth + 1)
+        elif isinstance(x, tuple):
+            y = tuple(substitute(z, key, actuals, depth + 1) if isinstance(z, tuple) else z for z in x)
+        else:
+            y = x
+        changed = changed or (y is not x)
+        out.append(y)
+    return tuple(out) if changed else e
+
+
+def call_target(facts, e):
+    """(body, actuals) for a call node whose target is a crate-local function or a closure literal, else None"""
+    if e[0] != 'call':
+        return None
+    name = e[1].rsplit('::', 1)[-1]
+    tgt = facts.body(e[4]) if len(e) > 4 and e[4] else facts.body(e[1])
+    if tgt is not None and tgt.d['kind'] != 'Closure':
+        return tgt, {i + 1: a for i, a in enumerate(e[2])}
+    if name in ('call', 'call_mut', 'call_once') and len(e[2]) == 2:
+        cl = None
+        if tgt is not None and tgt.d['kind'] == 'Closure':
+            cl = tgt
+        else:
+            for x in strip(e[2][0], through_calls=set()):
+                if x[0] == 'agg' and x[1] == 'closure':
+                    cl = facts.body(x[2])
+        if cl is None:
+            return None
+        actuals = {}
+        tup = None
+        for x in strip(e[2][1], through_calls=set()):
+            if x[0] == 'agg' and x[1] == 'tuple':
+                tup = x
+        if tup is not None:
+            for i, a in enumerate(tup[5]):
+                actuals[i + 2] = a
+        return cl, actuals
+    return None
+
+
+def inline(facts, e, depth=3, seen=()):
+    """expression with calls to crate-local functions / closures replaced by their (parameter-substituted) return expression,
+    up to `depth` levels; recursion is cut"""
+    if depth <= 0 or not isinstance(e, tuple) or not e or not isinstance(e[0], str):
+        return e
+    if e[0] == 'call':
+        ct = call_target(facts, e)
+        if ct is not None and ct[0].key not in seen:
+            body, actuals = ct
+            actuals = {k: inline(facts, v, depth, seen) for k, v in actuals.items()}
+            ret = body.expr_of_local(0)
+            sub = substitute(ret, body.key, actuals)
+            return inline(facts, sub, depth - 1, seen + (body.key,))
+    out = []
+    for x in e:
+        if isinstance(x, tuple) and x and isinstance(x[0], str):
+            out.append(inline(facts, x, depth, seen))
+        elif isinstance(x, tuple):
+            out.append(tuple(inline(facts, z, depth, seen) if isinstance(z, tuple) else z for z in x))
+        else:
+            out.append(x)
+    return tuple(out)
